@@ -123,7 +123,23 @@ def run(ctx):
         custom = []
         for st_ in stores:
             for alt, state in _alternatives_with_state(ff, st_[3], st_[4]):
-                if isinstance(strip_refs(alt), Param) and strip_refs(alt).name == pname:
+                a_ = strip_refs(alt)
+                # the list itself, or an order-preserving copy of it: list(p), tuple(p), p.copy(), p[:]
+                if isinstance(a_, ast.Call) and isinstance(a_.func, ast.Name) and a_.func.id in ('list', 'tuple') and \
+                        len(a_.args) == 1:
+                    a_ = strip_refs(a_.args[0])
+                elif isinstance(a_, ast.Call) and isinstance(a_.func, ast.Attribute) and a_.func.attr == 'copy' and not a_.args:
+                    a_ = strip_refs(a_.func.value)
+                elif isinstance(a_, ast.Subscript) and isinstance(a_.slice, ast.Slice) and a_.slice.lower is None and \
+                        a_.slice.upper is None and a_.slice.step is None:
+                    a_ = strip_refs(a_.value)
+                if isinstance(a_, Param) and a_.name == pname:
+                    custom.append((st_[0], state))
+                elif isinstance(a_, ast.Call) and isinstance(a_.func, ast.Name) and a_.func.id in ('sorted', 'set', 'reversed', 'frozenset') \
+                        and a_.args and isinstance(strip_refs(a_.args[0]), Param) and strip_refs(a_.args[0]).name == pname:
+                    ctx.ob('C13.R4', pi, st_[0].lineno, f"custom {axis} labels keep the order in which they were given", False,
+                           fact=f"stored as {a_.func.id}({pname})", why=f"position k of the plate no longer carries the k-th "
+                           f"given label: a label addresses another {axis}", key=f"custom {axis} labels reordered")
                     custom.append((st_[0], state))
         if not custom:
             raise AnalysisError(f"Plate.__init__: custom {axis} labels are no longer stored as given")
